@@ -34,13 +34,17 @@ class AdvExec(Exec):
         return super().write(st, place, val)
 
 
-def run_scan(ntx, nops):
+def run_scan(ntx, nops, kind="recovery"):
+    """kind = "recovery": engine::scan_recovery_state; kind = "vacuum": vacuum::scan_wal_roots (the same WAL fold used to find the
+    roots that vacuum keeps; it must choose the same final manifest and roots as recovery does)."""
     def run(mf, tier):
-        fn = mf.find(r"^fn scan_recovery_state\(")
+        fn = mf.find(r"^fn (?:\S*::)?scan_recovery_state\(" if kind == "recovery" else r"^fn (?:\S*::)?scan_wal_roots\(")
         vi = variant_index("nervusdb-storage/src/wal.rs", "WalRecord")
 
         def m_default(ex, st, a, dst, callee):
             z = bv(0, 64)
+            if kind == "vacuum":
+                return [(Struct("WalRoots", {0: z, 1: PyVec(), 2: z, 3: z}), [], None)]
             return [(Struct("RecoveryState", {0: z, 1: PyVec(), 2: z, 3: z, 4: z, 5: z}), [], None)]
 
         def m_into_iter(ex, st, a, dst, callee):
@@ -94,7 +98,7 @@ def run_scan(ntx, nops):
             return [(deref_val(ex, st, a[0]), [], None)]
 
         models = [(r"as Iterator>::next$", m_next), (r"as IntoIterator>::into_iter$", m_into_iter),
-                  (r"<RecoveryState as Default>::default$", m_default), (r"<u64 as Ord>::max$", m_max),
+                  (r"<(RecoveryState|WalRoots) as Default>::default$", m_default), (r"<u64 as Ord>::max$", m_max),
                   (r"<Vec<SegmentPointer> as Clone>::clone$", m_clone)] + GENERIC_MODELS
         ex = AdvExec(fn, models, bound=ntx * (nops + 2) + 4, variant_index=vi, max_paths=200000)
         st = State()
@@ -114,15 +118,21 @@ def run_scan(ntx, nops):
             n += 1
             log = p.st.env.get("$log", [])
             stt = p.ret
-            m_epoch, m_segs, cp_txid, max_txid, pr, sr = [stt.fields[i] for i in range(6)]
+            if kind == "vacuum":
+                m_epoch, m_segs, pr, sr = [stt.fields[i] for i in range(4)]
+                cp_txid = max_txid = None
+            else:
+                m_epoch, m_segs, cp_txid, max_txid, pr, sr = [stt.fields[i] for i in range(6)]
             txids = [e[2] for e in log if e[0] == "tx"]
             shape = " ".join(("tx" if e[0] == "tx" else e[2]) for e in log)
             # (B)
-            if txids:
+            if max_txid is None:
+                pass
+            elif txids:
                 okB = z3.And([z3.UGE(max_txid, t) for t in txids] + [z3.Or([max_txid == t for t in txids])])
             else:
                 okB = max_txid == 0
-            if not ex.entails(p.pc, okB):
+            if max_txid is not None and not ex.entails(p.pc, okB):
                 failed.append("max_txid is not the largest committed txid for log shape [%s]" % shape)
             # positions of ops in log order
             ops = [(i, e) for i, e in enumerate(log) if e[0] == "op" and e[2] in ("MS", "CP")]
@@ -151,6 +161,28 @@ def run_scan(ntx, nops):
                         cond = z3.And([e0[3] == m_epoch] + [z3.ULT(e[3], m_epoch) for i, e in mss if i > i0])
                         if not ex.entails(p.pc, cond):
                             failed.append("the adopted segment list is not the latest ManifestSwitch with the greatest epoch for log shape [%s]" % shape)
+            # (D) the final roots are those of the final ManifestSwitch unless a later Checkpoint for the final epoch overrides them
+            i0 = None
+            if mss and isinstance(m_segs, Opaque):
+                hit = [i for i, e in mss if e[4] == m_segs.name]
+                i0 = hit[0] if hit else None
+            if not mss or i0 is not None:
+                if mss:
+                    e0 = [e for i, e in mss if i == i0][0]
+                    want_pr, want_sr = e0[5], e0[6]
+                    later = [e for i, e in cps if i > i0]
+                else:
+                    want_pr, want_sr = bv(0, 64), bv(0, 64)
+                    later = [e for i, e in cps]
+                for e in later:
+                    want_pr = z3.If(e[4] == m_epoch, e[5], want_pr)
+                    want_sr = z3.If(e[4] == m_epoch, e[6], want_sr)
+                if not ex.entails(p.pc, z3.And(pr == want_pr, sr == want_sr)):
+                    failed.append("the property/statistics roots are not those of the final manifest (or of a later Checkpoint for it) for log shape [%s]" % shape)
+            if cp_txid is None:
+                if len(samples) < 6 and len(ops) >= 2:
+                    samples.append(shape + " => epoch=%s" % (z3.simplify(m_epoch),))
+                continue
             # (A) skipping is justified: checkpoint_txid > 0 => exists CP with up_to == checkpoint_txid (hence >= any skipped t),
             #     epoch == final manifest epoch, and no effective MS (epoch >= that epoch) after it
             if cps:
@@ -181,6 +213,8 @@ def run_scan(ntx, nops):
 
 
 TARGETS = [
+    {"name": "c28_o2_q_vacuum_scan_wal_roots_2tx_2ops", "crate": "nervusdb-storage", "run": run_scan(2, 2, "vacuum")},
+    {"name": "c28_o2_t_vacuum_scan_wal_roots_3tx_2ops", "crate": "nervusdb-storage", "run": run_scan(3, 2, "vacuum")},
     {"name": "c01_o2_q_scan_recovery_state_2tx_2ops", "crate": "nervusdb-storage", "run": run_scan(2, 2)},
     {"name": "c01_o2_t_scan_recovery_state_3tx_2ops", "crate": "nervusdb-storage", "run": run_scan(3, 2)},
 ]
